@@ -124,13 +124,32 @@ func runC05(c *Ctx) {
 			k, isC := ir.ConstInt(b.Y)
 			return isC && k == 1
 		}
+		// i-1 computed from such a result variable
+		idxVia := func(ia *ssa.IndexAddr, idx func(ssa.Value) bool) bool {
+			bo, ok := ir.Strip(ia.Index).(*ssa.BinOp)
+			if !ok || bo.Op != token.SUB {
+				return false
+			}
+			k, isC := ir.ConstInt(bo.Y)
+			if !isC || k != 1 {
+				return false
+			}
+			x := ir.ValueAt(bo.X, ia.Block())
+			if x == bo.X {
+				return false
+			}
+			// idx is isIdxMinus1 exactly when it refuses the bare index
+			return !idx(x) && isIdx(x)
+		}
 		elemOf := func(v ssa.Value, idx func(ssa.Value) bool) bool {
 			ld, ok := v.(*ssa.UnOp)
 			if !ok || ld.Op != token.MUL {
 				return false
 			}
 			ia, ok := ld.X.(*ssa.IndexAddr)
-			return ok && loadsField(q("filterHeaders"))(ia.X) && idx(ia.Index)
+			// (the index as what a result variable of a written-out lookup
+			// helper holds where the element is read)
+			return ok && loadsField(q("filterHeaders"))(ia.X) && (idx(ia.Index) || idx(ir.ValueAt(ia.Index, ia.Block())) || idxVia(ia, idx))
 		}
 		okKey := false
 		bh := c.field(pWire, "MsgCFilter", "BlockHash")
@@ -712,7 +731,7 @@ func runC05(c *Ctx) {
 		for _, in := range find(fn, callTo(putCache())) {
 			n++
 			a := argsOf(in)
-			okv := len(a) == 3 && isRespHash(a[0]) && isFilter(a[2])
+			okv := len(a) == 3 && (isRespHash(a[0]) || isRespHash(ir.ValueAt(a[0], in.Block()))) && (isFilter(a[2]) || isFilter(ir.ValueAt(a[2], in.Block())))
 			// the one other sound pair: the query's target under its own hash
 			// (targetFilter is assigned only for response.BlockHash == targetHash, C05.V3)
 			if !okv && len(a) == 3 {
@@ -738,10 +757,10 @@ func runC05(c *Ctx) {
 			switch ir.FieldOfAddr(fa) {
 			case fdHash:
 				m++
-				c.verdict(isRespHash(st.Val), c.nm(fn)+" | persisted record's block hash is this response's", c.at(in), "&response.BlockHash", "the record handed to the filter database carries a block hash other than this response's", c.at(in))
+				c.verdict(isRespHash(st.Val) || isRespHash(ir.ValueAt(st.Val, in.Block())), c.nm(fn)+" | persisted record's block hash is this response's", c.at(in), "&response.BlockHash", "the record handed to the filter database carries a block hash other than this response's", c.at(in))
 			case fdFilter:
 				m++
-				c.verdict(isFilter(st.Val), c.nm(fn)+" | persisted record's filter is the one decoded from this response", c.at(in), "filter", "the record handed to the filter database carries a filter other than the one decoded from this response", c.at(in))
+				c.verdict(isFilter(st.Val) || isFilter(ir.ValueAt(st.Val, in.Block())), c.nm(fn)+" | persisted record's filter is the one decoded from this response", c.at(in), "filter", "the record handed to the filter database carries a filter other than the one decoded from this response", c.at(in))
 			}
 		})
 		c.verdict(m >= 2, c.nm(fn)+" | persisted record fields", c.P.Pos(fn.Pos()), fmt.Sprintf("%d field store(s)", m), "the FilterData record built for the batch writer was not found")
